@@ -208,7 +208,7 @@ def validate(cap, eager, daskin, cn, traces, name, dev=None):
     b = lambda x: "TRUE" if x else "FALSE"  # noqa: E731
     cfg = ["SPECIFICATION TraceSpec", "CONSTANTS", " Datasets <- DS3", " NItems <- NI3", " Seeds <- SeedSet", f" Cap <- {cap}",
            f" Eager = {b(eager)}", f" DaskInput = {b(daskin)}", f" CheckNans = {b(cn)}", f" Deviations <- {'Dev' + dev if dev else 'NoDev'}",
-           " MaxSnaps = 1", "INVARIANT Reach", "POSTCONDITION Post", "CHECK_DEADLOCK FALSE"]
+           " MaxSnaps = 1", " RotSnapshots = FALSE", "INVARIANT Reach", "POSTCONDITION Post", "CHECK_DEADLOCK FALSE"]
     res = tlc.run("MC_TraceLife", cfg, name=name, workers=1, env={"TRACE_FILE": str(f)}, coverage=False)
     out = {}
     for v in res.tagged.get("verdict", []):
